@@ -385,6 +385,72 @@ def interplay_worker(task):
     return n, viols
 
 
+def extreme_parameter_cases():
+    from pydsol.core import distributions as D
+    nn = lambda x: isinstance(x, float) and x >= 0 and not math.isnan(x)  # noqa
+    unit = lambda x: isinstance(x, float) and 0 <= x <= 1  # noqa
+    inn = lambda x: isinstance(x, int) and not isinstance(x, bool) and x >= 0  # noqa
+    return [
+        ("Gamma(1e-3,5)", lambda s: D.DistGamma(s, 1e-3, 5.0), nn),
+        ("Gamma(1e6,1)", lambda s: D.DistGamma(s, 1e6, 1.0), nn),
+        ("Beta(1e-3,1e-3)", lambda s: D.DistBeta(s, 1e-3, 1e-3), unit),
+        ("Beta(1e3,1e3)", lambda s: D.DistBeta(s, 1e3, 1e3), unit),
+        ("Pearson5(1e-3,1)", lambda s: D.DistPearson5(s, 1e-3, 1.0), nn),
+        ("Pearson5(1e3,1)", lambda s: D.DistPearson5(s, 1e3, 1.0), nn),
+        ("Pearson6(2,1e-3,1)", lambda s: D.DistPearson6(s, 2.0, 1e-3, 1.0),
+         nn),
+        ("Pearson6(1e-3,2,1)", lambda s: D.DistPearson6(s, 1e-3, 2.0, 1.0),
+         nn),
+        ("Weibull(0.01,1)", lambda s: D.DistWeibull(s, 0.01, 1.0), nn),
+        ("Weibull(1e3,1)", lambda s: D.DistWeibull(s, 1e3, 1.0), nn),
+        ("Exponential(1e300)", lambda s: D.DistExponential(s, 1e300), nn),
+        ("Erlang(1,1000)", lambda s: D.DistErlang(s, 1.0, 1000), nn),
+        ("Erlang(1e-3,9)", lambda s: D.DistErlang(s, 1e-3, 9), nn),
+        ("LogNormal(0,100)", lambda s: D.DistLogNormal(s, 0.0, 100.0), nn),
+        ("Binomial(2000,0.5)", lambda s: D.DistBinomial(s, 2000, 0.5), inn),
+        ("Poisson(1e-9)", lambda s: D.DistPoisson(s, 1e-9), inn),
+        ("Poisson(700)", lambda s: D.DistPoisson(s, 700.0), inn),
+        ("Geometric(1e-12)", lambda s: D.DistGeometric(s, 1e-12), inn),
+        ("Geometric(1-1e-16)", lambda s: D.DistGeometric(s, 1 - 1e-16), inn),
+        ("NegBinomial(500,0.5)", lambda s: D.DistNegBinomial(s, 500, 0.5),
+         inn),
+    ]
+
+
+def extreme_parameter_worker(idx):
+    """valid parameters at the extremes of the documented domain on an
+    ordinary (equidistributed, deterministic) stream: 400 consecutive draws
+    must not raise and must stay in the support"""
+    Scripted = make_scripted()
+    name, mk, support = extreme_parameter_cases()[idx]
+    viols = []
+    n = 0
+    try:
+        d = mk(Scripted(weyl(200000)))
+    except Exception as ex:  # noqa
+        return 1, [("C14:extreme-parameters-rejected:%s:%s" % (
+            name, type(ex).__name__), "%s: documented-valid parameters are "
+            "rejected: %s" % (name, ex), {"part": "extreme", "case": name})]
+    for i in range(400):
+        n += 1
+        try:
+            x = d.draw()
+        except Exception as ex:  # noqa
+            viols.append(("C14:draw-raises:%s:%s:%s" % (
+                name.split("(")[0], type(ex).__name__, raising_site(ex)),
+                "%s: draw #%d on an ordinary stream raises %s: %s" % (
+                    name, i, type(ex).__name__, ex),
+                {"part": "extreme", "case": name}))
+            break
+        if not support(x):
+            viols.append(("C14:outside-support:%s" % name,
+                          "%s: draw #%d = %r outside the support" % (name, i,
+                                                                     x),
+                          {"part": "extreme", "case": name}))
+            break
+    return n, viols
+
+
 def constructor_table():
     from pydsol.core import distributions as D
     Scripted = make_scripted()
@@ -508,6 +574,14 @@ def run(ctx):
         for v in viols:
             ctx.violation(v[0], v[1], dict(v[2], part="interplay"))
     ctx.part("twin / interleaving / re-pointing experiments", runs=ni)
+    ne = 0
+    for n, viols in common.pimap(extreme_parameter_worker,
+                                 range(len(extreme_parameter_cases()))):
+        ne += n
+        for v in viols:
+            ctx.violation(v[0], v[1], v[2])
+    ctx.part("extreme parameters on an ordinary stream", draws=ne,
+             cases=len(extreme_parameter_cases()))
     nk, viols = constructor_table()
     for v in viols:
         ctx.violation(v[0], v[1], dict(v[2], part="constructor"))
@@ -515,7 +589,7 @@ def run(ctx):
     ctx.sample({"case": "Gamma(2.5,2)", "script": [0.25, 1 - EPS, 5e-324]})
     ctx.sample({"case": "Normal(1,2) re-pointed after 1 draw (cached spare)"})
     ctx.coverage.update(
-        evaluations=total + ni + nk, distinct_nontrivial=nontriv,
+        evaluations=total + ni + nk + ne, distinct_nontrivial=nontriv,
         rule="%d (class, parameter) cases reaching every sampler branch x all "
         "scripts of length <= 3 over the uniform alphabet %s followed by a "
         "benign tail: no exception, value in the support, twin instance on an "
@@ -539,6 +613,12 @@ def replay(data):
         n, v = constructor_table()
         v = [x for x in v if x[2].get("class") == data.get("class")]
         return [x[1] for x in v[:3]] or None
+    if data.get("part") == "extreme":
+        for i, cse in enumerate(extreme_parameter_cases()):
+            if cse[0] == data["case"]:
+                n, v = extreme_parameter_worker(i)
+                return [x[1] for x in v] or None
+        return None
     if data.get("part") == "interplay":
         idx = [i for i, c in enumerate(cases()) if c[0] == data["case"]]
         n, v = interplay_worker((idx[0], idx[0] + 1))
